@@ -2,7 +2,11 @@
 //
 // (a) every vote table over <= 4 keys with tallies from {0, min-1, min, min+1, big};
 // (b) every table over 11..16 keys whose tallies take two or three levels (ties straddling the cut at 10);
-// (c) every vote/veto history of <= 4 operations over 3 keys applied through REAL blocks on a real node.
+// (c) every vote/veto history of <= 4 operations over 3 keys applied through REAL blocks on a real node;
+// (d) the tally itself: every block of one or two transactions with SEVERAL veto inputs (every order, plain
+// inputs between them, the same key twice, vetoes that use a key up in first / middle / last position) and
+// SEVERAL vote outputs, applied to every start table by Checkpoint.Increase, and (through real blocks) one
+// transaction with several vote outputs followed by one transaction spending every ordered selection of them.
 // For every resulting checkpoint: EffectiveValidators / AllValidators and GetValidator at every
 // timestamp in {slot start, +1, end-1} for three rotation rounds; in (c) additionally which proposer
 // signature Chain.ProcessBlock accepts.
@@ -22,6 +26,7 @@ import (
 
 	"github.com/bytom/bytom/consensus"
 	"github.com/bytom/bytom/crypto/ed25519/chainkd"
+	"github.com/bytom/bytom/protocol/bc"
 	"github.com/bytom/bytom/protocol/bc/types"
 	"github.com/bytom/bytom/protocol/state"
 
@@ -493,13 +498,417 @@ func partB(run *ev.Run, twoN, threeN []int, pairs [][]uint64, triples [][]uint64
 }
 
 // ---------------------------------------------------------------------------------------------
+// (d): the tally of one block, Checkpoint.Increase on constructed blocks
+// ---------------------------------------------------------------------------------------------
+
+// dItem is one input or output of a (d) transaction: key < 0 = a plain spend input / plain output,
+// otherwise a veto input / vote output for key number `key` of `amt`.
+type dItem struct {
+	key int
+	amt uint64
+}
+
+type dTx struct{ ins, outs []dItem }
+
+// dBlock is a block of (d) with the reference's own view of it: per transaction and key the sum of the
+// vetoed and of the voted amounts (no order of inputs in it: the tally must not depend on one).
+type dBlock struct {
+	txs     []dTx
+	desc    string
+	block   *types.Block
+	vetoSum [][]uint64
+	voteSum [][]uint64
+	maxVeto int // largest number of veto inputs in one transaction
+}
+
+func seqs(kinds []dItem, minLen, maxLen int) [][]dItem {
+	var out [][]dItem
+	var rec func(cur []dItem)
+	rec = func(cur []dItem) {
+		if len(cur) >= minLen {
+			out = append(out, append([]dItem(nil), cur...))
+		}
+		if len(cur) == maxLen {
+			return
+		}
+		for _, k := range kinds {
+			rec(append(cur, k))
+		}
+	}
+	rec(nil)
+	return out
+}
+
+func dKinds(nKeys int, amts []uint64) []dItem {
+	kinds := []dItem{{-1, 150000000}}
+	for k := 0; k < nKeys; k++ {
+		for _, a := range amts {
+			kinds = append(kinds, dItem{k, a})
+		}
+	}
+	return kinds
+}
+
+func dTxs(kinds []dItem, maxIn, maxOut int) []dTx {
+	var txs []dTx
+	for _, ins := range seqs(kinds, 1, maxIn) {
+		for _, outs := range seqs(kinds, 1, maxOut) {
+			txs = append(txs, dTx{ins, outs})
+		}
+	}
+	return txs
+}
+
+func (t dTx) String() string {
+	f := func(items []dItem, plain, typed string) string {
+		var s []string
+		for _, it := range items {
+			if it.key < 0 {
+				s = append(s, plain)
+			} else {
+				s = append(s, fmt.Sprintf("%s(k%d,%d)", typed, it.key, it.amt))
+			}
+		}
+		return strings.Join(s, " ")
+	}
+	return "tx{in: " + f(t.ins, "spend", "veto") + " | out: " + f(t.outs, "plain", "vote") + "}"
+}
+
+func (b *dBlock) String() string { return b.desc }
+
+func (b *dBlock) describe() string {
+	var s []string
+	for _, t := range b.txs {
+		s = append(s, t.String())
+	}
+	return strings.Join(s, " ; ")
+}
+
+const dHeight = 100 // an epoch boundary for E=2: Increase turns the checkpoint Unjustified
+
+var dPrev = bc.NewHash([32]byte{0xd1})
+
+// dBuilt is a (d) transaction with the real transaction built from it (shared by the blocks that use it).
+type dBuilt struct {
+	dTx
+	tx         *types.Tx
+	veto, vote []uint64
+	nVeto      int
+}
+
+func buildDTx(t dTx, keys []string, nKeys int, tag byte) *dBuilt {
+	r := &dBuilt{dTx: t, veto: make([]uint64, nKeys), vote: make([]uint64, nKeys)}
+	d := types.TxData{Version: 1}
+	for i, it := range t.ins {
+		id := bc.NewHash([32]byte{0xd2, tag, byte(i)})
+		if it.key < 0 {
+			d.Inputs = append(d.Inputs, types.NewSpendInput(nil, id, *consensus.BTMAssetID, it.amt, 0, labnet.Prog(byte(i)), nil))
+			continue
+		}
+		raw, _ := hex.DecodeString(keys[it.key])
+		d.Inputs = append(d.Inputs, types.NewVetoInput(nil, id, *consensus.BTMAssetID, it.amt, 0, labnet.Prog(byte(i)), raw, nil))
+		r.veto[it.key] += it.amt
+		r.nVeto++
+	}
+	for i, it := range t.outs {
+		if it.key < 0 {
+			d.Outputs = append(d.Outputs, types.NewOriginalTxOutput(*consensus.BTMAssetID, it.amt, labnet.Prog(byte(0x80+i)), nil))
+			continue
+		}
+		raw, _ := hex.DecodeString(keys[it.key])
+		d.Outputs = append(d.Outputs, types.NewVoteOutput(*consensus.BTMAssetID, it.amt, labnet.Prog(byte(0x80+i)), raw, nil))
+		r.vote[it.key] += it.amt
+	}
+	// Checkpoint.Increase reads the inputs and outputs of the transaction data only: the entry form is not built
+	r.tx = &types.Tx{TxData: d}
+	return r
+}
+
+var dCoinbase *types.Tx
+
+func mkDBlock(txs ...*dBuilt) *dBlock {
+	if dCoinbase == nil {
+		dCoinbase = labnet.SizedTx(types.TxData{Version: 1,
+			Inputs:  []*types.TxInput{types.NewCoinbaseInput([]byte{0, '1', '0', '0'})},
+			Outputs: []*types.TxOutput{types.NewOriginalTxOutput(*consensus.BTMAssetID, 0, labnet.OpTrue, nil)}})
+	}
+	b := &dBlock{}
+	list := []*types.Tx{dCoinbase}
+	for _, t := range txs {
+		b.txs = append(b.txs, t.dTx)
+		list = append(list, t.tx)
+		b.vetoSum = append(b.vetoSum, t.veto)
+		b.voteSum = append(b.voteSum, t.vote)
+		if t.nVeto > b.maxVeto {
+			b.maxVeto = t.nVeto
+		}
+	}
+	b.desc = b.describe()
+	b.block = &types.Block{
+		BlockHeader:  types.BlockHeader{Version: 1, Height: dHeight, PreviousBlockHash: dPrev, Timestamp: 1524549600000 + 777},
+		Transactions: list,
+	}
+	return b
+}
+
+// refTally: transaction by transaction, per key: what the vetoes of the transaction leave (never below
+// zero), plus what its vote outputs add.
+func (b *dBlock) refTally(start []uint64) []uint64 {
+	t := append([]uint64(nil), start...)
+	for i := range b.txs {
+		for k := range t {
+			if b.vetoSum[i][k] >= t[k] {
+				t[k] = 0
+			} else {
+				t[k] -= b.vetoSum[i][k]
+			}
+			t[k] += b.voteSum[i][k]
+		}
+	}
+	return t
+}
+
+// shape names, for the outcome histogram, where in its transaction the first veto stands that uses its
+// key up (amount >= what the key has at that point), for the transaction with the most veto inputs.
+func (b *dBlock) shape(start []uint64) string {
+	switch b.maxVeto {
+	case 0:
+		return "votes-only"
+	case 1:
+		return "one-veto-per-transaction"
+	}
+	t := append([]uint64(nil), start...)
+	for i, tx := range b.txs {
+		n, pos, nv := 0, -1, 0
+		for _, it := range tx.ins {
+			if it.key >= 0 {
+				nv++
+			}
+		}
+		for _, it := range tx.ins {
+			if it.key < 0 {
+				continue
+			}
+			if pos < 0 && it.amt >= t[it.key] {
+				pos = n
+			}
+			if it.amt >= t[it.key] {
+				t[it.key] = 0
+			} else {
+				t[it.key] -= it.amt
+			}
+			n++
+		}
+		for k := range t {
+			t[k] += b.voteSum[i][k]
+		}
+		if nv == b.maxVeto {
+			switch {
+			case pos < 0:
+				return "several-vetoes-in-one-transaction:none-uses-its-key-up"
+			case pos == 0:
+				return "several-vetoes-in-one-transaction:first-uses-its-key-up"
+			case pos == nv-1:
+				return "several-vetoes-in-one-transaction:last-uses-its-key-up"
+			}
+			return "several-vetoes-in-one-transaction:middle-uses-its-key-up"
+		}
+	}
+	return "several-vetoes-in-one-transaction"
+}
+
+func vetoClass(maxVeto int) string {
+	switch maxVeto {
+	case 0:
+		return "votes-only"
+	case 1:
+		return "one-veto-per-transaction"
+	}
+	return "several-vetoes-in-one-transaction"
+}
+
+// diffTally compares a Votes map (zero entries ignored) with a reference table.
+func diffTally(got map[string]uint64, ref []kv) (dir string, ok bool) {
+	want := map[string]uint64{}
+	for _, e := range ref {
+		if e.Votes != 0 {
+			want[e.Key] = e.Votes
+		}
+	}
+	var keys []string
+	for k := range want {
+		keys = append(keys, k)
+	}
+	for k, v := range got {
+		if _, in := want[k]; !in && v != 0 {
+			keys = append(keys, k)
+		}
+	}
+	sort.Strings(keys)
+	for _, k := range keys {
+		switch {
+		case got[k] > want[k]:
+			return "tally-too-high", false
+		case got[k] < want[k]:
+			return "tally-too-low", false
+		}
+	}
+	return "", true
+}
+
+func fmtVotes(m map[string]uint64) string {
+	var t []kv
+	for k, v := range m {
+		t = append(t, kv{k, v})
+	}
+	sort.Slice(t, func(i, j int) bool { return t[i].Key < t[j].Key })
+	return fmtTable(t)
+}
+
+// partD: every start table over nKeys keys with tallies from `levels`, every block of one transaction from
+// `single` and every block of two transactions from `pair`.
+func partD(run *ev.Run, nKeys int, levels, amts []uint64, maxIn, maxOut, pairIn, pairOut int) {
+	labnet.Setup(2, 1, 4)
+	min := consensus.ActiveNetParams.MinValidatorVoteNum
+	fed := fedKeys()
+	keys := labKeys(nKeys)
+	kinds := dKinds(nKeys, amts)
+	var blocks []*dBlock
+	for _, t := range dTxs(kinds, maxIn, maxOut) {
+		blocks = append(blocks, mkDBlock(buildDTx(t, keys, nKeys, 0)))
+	}
+	var first, second []*dBuilt
+	for _, t := range dTxs(kinds, pairIn, pairOut) {
+		first = append(first, buildDTx(t, keys, nKeys, 1))
+		second = append(second, buildDTx(t, keys, nKeys, 2))
+	}
+	for _, t1 := range first {
+		for _, t2 := range second {
+			blocks = append(blocks, mkDBlock(t1, t2))
+		}
+	}
+	interval := consensus.ActiveNetParams.BlockTimeInterval
+	nTables := 1
+	for i := 0; i < nKeys; i++ {
+		nTables *= len(levels)
+	}
+	var jobs []job
+	for idx := nTables - 1; idx >= 0; idx-- { // tables with votes for every key first: the first counterexample reported is a plausible one
+		start := make([]uint64, nKeys)
+		x := idx
+		for i := range start {
+			start[i] = levels[x%len(levels)]
+			x /= len(levels)
+		}
+		jobs = append(jobs, func(c *counters) {
+			var startTable []kv
+			for i, v := range start {
+				startTable = append(startTable, kv{keys[i], v})
+			}
+			startDesc := "(d) start table " + fmtTable(startTable) + ", block "
+			for _, b := range blocks {
+				votes := map[string]uint64{}
+				for i, v := range start {
+					if v != 0 {
+						votes[keys[i]] = v
+					}
+				}
+				cp := &state.Checkpoint{Height: dHeight - 1, Hash: dPrev, Timestamp: b.block.Timestamp - interval, Status: state.Growing, Votes: votes, Rewards: map[string]uint64{}}
+				c.evals++
+				if err := cp.Increase(b.block); err != nil {
+					c.viol("infra-increase", err.Error())
+					return
+				}
+				after := b.refTally(start)
+				table := make([]kv, 0, nKeys)
+				for i, v := range after {
+					if v != 0 {
+						table = append(table, kv{keys[i], v})
+					}
+				}
+				c.outcomes["d:"+b.shape(start)]++
+				c.nontrivial++
+				if dir, ok := diffTally(cp.Votes, table); !ok {
+					c.viol("vote-tally-differs:"+vetoClass(b.maxVeto)+":"+dir, fmt.Sprintf("(d) start table %s, block %s: Votes after Checkpoint.Increase %s, reference (per transaction and key: tally minus the vetoed sum, not below zero, plus the voted sum) %s", fmtTable(startTable), b, fmtVotes(cp.Votes), fmtTable(table)))
+					continue // the sets follow from the table; a wrong table is reported under its own key
+				}
+				evalSets(c, startDesc+b.desc, cp, table, min, fed, 1)
+			}
+		})
+	}
+	runJobs(run, jobs)
+	run.Add("d_tables", nTables)
+	run.Add("d_blocks_per_table", len(blocks))
+}
+
+// ---------------------------------------------------------------------------------------------
 // (c): histories through real blocks
 // ---------------------------------------------------------------------------------------------
 
 const (
 	nVoteKey = 3
 	opNoop   = 2 * nVoteKey
+	// opMV+v: ONE transaction spending U[0..2] into several vote outputs, the keys of mvVariants[v]
+	opMV = 16
+	// opMX + 2*code + revote: ONE transaction whose inputs are an ordered selection of the vote outputs of the
+	// opMV transaction (code = sum of (index+1)*5^position); revote = 1: its outputs are vote outputs again
+	opMX = 100
 )
+
+// keys of the vote outputs of a several-outputs transaction (amounts cVoteAmts): the same key twice, every
+// key once, two keys twice
+var mvVariants = [][]int{{0, 0, 1, 2}, {0, 1, 2}, {1, 1, 2, 2}}
+
+func mxDecode(op int) (sel []int, revote bool) {
+	code := (op - opMX) / 2
+	for ; code > 0; code /= 5 {
+		sel = append(sel, code%5-1)
+	}
+	return sel, (op-opMX)%2 == 1
+}
+
+func mxEncode(sel []int, revote bool) int {
+	code, f := 0, 1
+	for _, i := range sel {
+		code += (i + 1) * f
+		f *= 5
+	}
+	op := opMX + 2*code
+	if revote {
+		op++
+	}
+	return op
+}
+
+// enumerateMulti: [several-outputs transaction v, (empty block,) transaction spending every ordered selection
+// of >= 2 of its vote outputs (, with vote outputs again)].
+func enumerateMulti(variants []int, gap, revote []bool) [][]int {
+	var out [][]int
+	for _, v := range variants {
+		n := len(mvVariants[v])
+		var rec func(sel []int, used int)
+		rec = func(sel []int, used int) {
+			if len(sel) >= 2 {
+				for _, g := range gap {
+					for _, r := range revote {
+						h := []int{opMV + v}
+						if g {
+							h = append(h, opNoop)
+						}
+						out = append(out, append(h, mxEncode(sel, r)))
+					}
+				}
+			}
+			for i := 0; i < n; i++ {
+				if used&(1<<i) == 0 {
+					rec(append(append([]int(nil), sel...), i), used|1<<i)
+				}
+			}
+		}
+		rec(nil, 0)
+	}
+	return out
+}
 
 // vote amounts per key: k0 and k1 tie vote for vote, k2 outranks them
 var cVoteAmts = [nVoteKey]uint64{100000000, 100000000, 120000000}
@@ -542,6 +951,15 @@ func buildC() *cWorld {
 
 func opName(op int) string {
 	switch {
+	case op >= opMX:
+		sel, revote := mxDecode(op)
+		s := fmt.Sprintf("one-tx-vetoing-outputs%v-of-the-vote-tx", sel)
+		if revote {
+			s += "-and-voting-again"
+		}
+		return s
+	case op >= opMV:
+		return fmt.Sprintf("one-tx-voting-for-keys%v", mvVariants[op-opMV])
 	case op < nVoteKey:
 		return fmt.Sprintf("vote(k%d)", op)
 	case op < 2*nVoteKey:
@@ -562,6 +980,15 @@ func describeC(h []int) interface{} {
 type cModel struct {
 	tally map[string]uint64
 	outs  [nVoteKey][]cOut // outstanding vote outputs per key, oldest first
+	mv    []mvOut          // vote outputs of the several-outputs transaction
+	// largest number of veto inputs in one transaction so far
+	maxVeto int
+}
+
+type mvOut struct {
+	key    int
+	out    labnet.Out
+	height uint64
 }
 
 type cOut struct {
@@ -579,6 +1006,15 @@ func (m *cModel) table() []kv {
 }
 
 func (m *cModel) enabled(op int, height uint64) bool {
+	if op >= opMX {
+		sel, _ := mxDecode(op)
+		for _, i := range sel {
+			if i >= len(m.mv) || m.mv[i].height+1 > height {
+				return false
+			}
+		}
+		return true
+	}
 	if op >= nVoteKey && op < 2*nVoteKey {
 		o := m.outs[op-nVoteKey]
 		return len(o) > 0 && o[0].height+1 <= height
@@ -625,7 +1061,72 @@ func enumerate(maxLen int) [][]int {
 // updates the reference tally.
 func (w *cWorld) applyOp(m *cModel, op, i int, height uint64) []*types.Tx {
 	var txs []*types.Tx
+	keyOf := func(k int) (raw []byte, hexKey string) {
+		pub := w.voteKeys[k].XPub()
+		return pub[:], hex.EncodeToString(pub[:])
+	}
 	switch {
+	case op >= opMX:
+		sel, revote := mxDecode(op)
+		var ins []labnet.Out
+		var sum uint64
+		vetoed := map[string]uint64{}
+		for _, j := range sel {
+			o := m.mv[j]
+			ins = append(ins, o.out)
+			sum += o.out.Amount()
+			_, hk := keyOf(o.key)
+			vetoed[hk] += o.out.Amount()
+		}
+		rest := sum - labnet.Fee
+		var outs []*types.TxOutput
+		voted := map[string]uint64{}
+		if revote {
+			for n, k := range []int{1, 0} {
+				if rest >= cVoteAmts[k] {
+					raw, hk := keyOf(k)
+					outs = append(outs, types.NewVoteOutput(*consensus.BTMAssetID, cVoteAmts[k], labnet.Prog(byte(0x60+n)), raw, nil))
+					voted[hk] += cVoteAmts[k]
+					rest -= cVoteAmts[k]
+				}
+			}
+		}
+		if rest > 0 || len(outs) == 0 {
+			outs = append(outs, types.NewOriginalTxOutput(*consensus.BTMAssetID, rest, labnet.Prog(byte(0x50+i)), nil))
+		}
+		txs = append(txs, labnet.Tx(ins, outs))
+		// per key: what the vetoes of the transaction leave, plus what it votes
+		for hk, a := range vetoed {
+			if a >= m.tally[hk] {
+				delete(m.tally, hk)
+			} else {
+				m.tally[hk] -= a
+			}
+		}
+		for hk, a := range voted {
+			m.tally[hk] += a
+		}
+		m.mv = nil // (d) histories end here; the outputs are not tracked further
+		if len(sel) > m.maxVeto {
+			m.maxVeto = len(sel)
+		}
+	case op >= opMV:
+		ks := mvVariants[op-opMV]
+		srcs := []labnet.Out{w.P.U[0], w.P.U[1], w.P.U[2]}
+		rest := 3*uint64(chainlab.UAmount) - labnet.Fee
+		var outs []*types.TxOutput
+		for n, k := range ks {
+			raw, hk := keyOf(k)
+			outs = append(outs, types.NewVoteOutput(*consensus.BTMAssetID, cVoteAmts[k], labnet.Prog(byte(0x30+n)), raw, nil))
+			m.tally[hk] += cVoteAmts[k]
+			rest -= cVoteAmts[k]
+		}
+		outs = append(outs, types.NewOriginalTxOutput(*consensus.BTMAssetID, rest, labnet.Prog(0x40), nil))
+		tx := labnet.Tx(srcs, outs)
+		txs = append(txs, tx)
+		for n, k := range ks {
+			m.mv = append(m.mv, mvOut{k, labnet.Out{Tx: tx, Idx: n}, height})
+		}
 	case op < nVoteKey:
 		pub := w.voteKeys[op].XPub()
 		src := w.P.U[i]
@@ -641,6 +1142,9 @@ func (w *cWorld) applyOp(m *cModel, op, i int, height uint64) []*types.Tx {
 		vo := m.outs[k][0]
 		m.outs[k] = m.outs[k][1:]
 		txs = append(txs, labnet.Pay([]labnet.Out{vo.out}, labnet.Prog(byte(0x50+i))))
+		if m.maxVeto < 1 {
+			m.maxVeto = 1
+		}
 		key := hex.EncodeToString(pub[:])
 		m.tally[key] -= cVoteAmts[k]
 		if m.tally[key] == 0 {
@@ -651,7 +1155,7 @@ func (w *cWorld) applyOp(m *cModel, op, i int, height uint64) []*types.Tx {
 }
 
 func (m *cModel) clone() *cModel {
-	n := &cModel{tally: map[string]uint64{}}
+	n := &cModel{tally: map[string]uint64{}, mv: append([]mvOut(nil), m.mv...), maxVeto: m.maxVeto}
 	for k, v := range m.tally {
 		n.tally[k] = v
 	}
@@ -787,6 +1291,13 @@ func runC(h []int, extra json.RawMessage) (out xplore.Out) {
 		}
 		return v
 	}, ref, cur.ts, 4)
+	// the whole tally (keys below the minimum included) of the node's checkpoint that ends with the tip
+	c.evals++
+	if _, votes, found := nd.Chain.VerifCasper().VerifTables(tipHash); !found {
+		c.viol("through-blocks:no-checkpoint-for-the-boundary-block", tag)
+	} else if dir, same := diffTally(votes, m.table()); !same {
+		c.viol("through-blocks:vote-tally-differs:"+vetoClass(m.maxVeto)+":"+dir, fmt.Sprintf("%s: Votes of the node's checkpoint %s, vote outputs minus vetoes along the branch %s", tag, fmtVotes(votes), fmtTable(m.table())))
+	}
 	// AllValidators(block) ranks the table of the checkpoint before the block's own epoch
 	prev := bnd[tip.Height-1]
 	rank := refRank(prev.table, cMin)
@@ -961,23 +1472,45 @@ func main() {
 			[][]uint64{{min, min + 1}, {min - 1, min}},
 			[][]uint64{{min, min + 1, min + 2}})
 	}
-	// (c)
+	// (d) on constructed blocks
+	{
+		min := uint64(100000000)
+		if run.Thorough() {
+			partD(run, 3, []uint64{0, min, min + min/2, 2 * min}, []uint64{min / 2, min}, 4, 2, 2, 1)
+		} else {
+			partD(run, 3, []uint64{0, min, 2 * min}, []uint64{min}, 4, 2, 2, 1)
+		}
+	}
+	// (c), and (d) through real blocks
 	buildC()
 	items := enumerate(run.Pick(3, 4))
-	cStates, cBlocks := 0, 0
+	multi := enumerateMulti([]int{0}, []bool{false}, []bool{false})
+	multiMins := 1
+	if run.Thorough() {
+		multi = append(enumerateMulti([]int{0, 1, 2}, []bool{false}, []bool{false, true}), enumerateMulti([]int{0, 1, 2}, []bool{true}, []bool{false})...)
+		multiMins = len(cMins)
+	}
+	cStates, cBlocks, nHist := 0, 0, 0
 	for variant := range cMins {
 		spec.Extra = variant
-		st := xplore.Flat(run, spec, items)
+		its := items
+		if variant < multiMins {
+			its = append(append([][]int(nil), items...), multi...)
+		}
+		nHist += len(its)
+		st := xplore.Flat(run, spec, its)
 		run.Add("evaluations", st.Checks)
 		cStates += st.States
 		cBlocks += st.Transitions
 	}
 	run.Add("distinct_nontrivial", cStates)
-	run.Set("c_histories", len(items)*len(cMins))
+	run.Set("c_histories", nHist)
+	run.Set("d_histories_through_blocks", len(multi)*multiMins)
 	run.Set("c_history_blocks_processed", cBlocks)
 	run.Set("c_distinct_boundary_tallies", cStates)
-	run.Set("rule", "(a) every function from the first k<=K of four keys to {0, min-1, min, min+1, 2^63+12345}, per checkpoint status and timestamp; (b) every assignment of two (three) tally levels to N keys that uses at least two levels; (c) every sequence of <= L operations from {vote(k) of 1.0/1.0/1.2 * 10^8 for k0/k1/k2, veto(k) of the oldest vote output of k, empty block} (a sequence ending inside an epoch is completed with one empty block), once with minimum 10^8 and once with 2*10^8, one operation per block on a real node (E=2). Per checkpoint: EffectiveValidators and AllValidators 4x, GetValidator at {slot start, +1, end-1} of every slot of 3 rotation rounds (4x in (a),(c); 1x in two-level (b); sets only in three-level (b)); in (c) additionally one child block per (slot of one round + 1) x (every known key) is offered to Chain.ProcessBlock. evaluations = calls compared with the reference; distinct_nontrivial = tables with >= 2 qualifying keys or a filtered key ((a),(b)) + distinct (height, boundary tallies) reached in (c)")
+	run.Set("rule", "(a) every function from the first k<=K of four keys to {0, min-1, min, min+1, 2^63+12345}, per checkpoint status and timestamp; (b) every assignment of two (three) tally levels to N keys that uses at least two levels; (c) every sequence of <= L operations from {vote(k) of 1.0/1.0/1.2 * 10^8 for k0/k1/k2, veto(k) of the oldest vote output of k, empty block} (a sequence ending inside an epoch is completed with one empty block), once with minimum 10^8 and once with 2*10^8, one operation per block on a real node (E=2); (d) every start table of 3 keys over {0, min, 2*min} (thorough {0, min, 1.5*min, 2*min}) x every block of one transaction with 1..4 inputs from {plain spend, veto(k, min)} (thorough: veto amounts min/2 and min) in every order and 1..2 outputs from {plain, vote(k, same amounts)}, and every block of two transactions with 1..2 inputs and 1 output each, applied by Checkpoint.Increase: the whole Votes table is compared with (per transaction and key) max(0, tally - sum vetoed) + sum voted, then the sets 1x; and through real blocks one transaction with vote outputs for [k0 k0 k1 k2] (thorough also [k0 k1 k2], [k1 k1 k2 k2]) followed (thorough: also after an empty block) by one transaction spending every ordered selection of >= 2 of those outputs (thorough: also with vote outputs again), observed like (c); in (c) and (d) the whole Votes table of the node's checkpoint at the boundary block is compared with the reference tally. Per checkpoint: EffectiveValidators and AllValidators 4x, GetValidator at {slot start, +1, end-1} of every slot of 3 rotation rounds (4x in (a),(c); 1x in two-level (b); sets only in three-level (b)); in (c) additionally one child block per (slot of one round + 1) x (every known key) is offered to Chain.ProcessBlock. evaluations = calls compared with the reference; distinct_nontrivial = tables with >= 2 qualifying keys or a filtered key ((a),(b)) + distinct (height, boundary tallies) reached in (c) + (start table, block) pairs of (d)")
 	run.Assume("repeating an evaluation 4x cannot force a particular map iteration order; the reference order is total, so any dependence on iteration order shows up as a difference with high probability per tied table, not with certainty")
+	run.Assume("(d) constructed blocks are not valid blocks (unbalanced amounts, vetoes of a key that has no votes): Checkpoint.Increase does not validate, and the tally rule 'a veto takes at most what is there' is taken from the statement's 'vetoes exceeding votes'; within one transaction vetoes are applied before its vote outputs. Through real blocks a veto never exceeds the tally")
 	run.Assume("timestamps before the epoch start are outside the statement (unsigned subtraction)")
 	run.Assume("(c): vote outputs cannot be smaller than 10^8 (consensus), so tallies below the minimum arise only with the minimum 2*10^8; blocks are signed with the reference proposer's key, so a disagreement about the validator set surfaces as a rejected block")
 	run.Finish()
